@@ -481,12 +481,10 @@ func recoverTable(s *session, o *opt.Options) error {
 	// Set sequence number.
 	rec.setSeqNum(maxSeq)
 
-	// Create new manifest.
-	if err := s.create(); err != nil {
-		return err
-	}
-
-	// Commit.
+	// Commit. There is no manifest yet, so this writes the recovered tables
+	// into a new one and only then makes it current: creating an empty
+	// manifest first would leave, after a crash or a failed write in
+	// between, a valid empty DB whose next Open removes every table.
 	return s.commit(rec, false)
 }
 
